@@ -400,7 +400,7 @@ func c11Case(run *evid.Run, i int, j *Journal) {
 				sort.Strings(ks)
 				run.NonTrivial(fmt.Sprintf("%s/%s/%s/c%d/%s/x%v", shape, p.Name, strings.Join(ks, "+"), p.Conc, p.Policy, len(p.Excl) > 0))
 			}
-			if i == 0 && r == 0 && pn < 2 {
+			if pn < 2 {
 				run.Sample(map[string]any{"plan": p, "log_entries": len(src.Set), "returned": len(got), "model_closure": len(reach)})
 			}
 		}
